@@ -58,7 +58,8 @@ def fit_to_variational_target(
     keys = tqdm(jr.split(key, steps), disable=not show_progress)
 
     for key in keys:
-        params, opt_state, loss = step(
+        # step returns the loss evaluated at the parameters *before* the update
+        new_params, opt_state, loss = step(
             params,
             static,
             key,
@@ -70,5 +71,6 @@ def fit_to_variational_target(
         keys.set_postfix({"loss": loss.item()})
         if loss.item() == min(losses):
             best_params = params
+        params = new_params
     params = best_params if return_best else params
     return eqx.combine(params, static), losses
